@@ -2,23 +2,28 @@
 // Solver counter-example(s) produced by Kani's concrete playback; replay with
 //   ./check C10 --replay /verif/replay/cases/c10__q__usize___chunks.rs
 
-/// Test generated for harness `c10::q::usize_::chunks` 
-///
-/// Check for `assertion`: "attempt to multiply with overflow"
-
+// failed check (assertion): assertion failed: should_ok
 #[test]
-fn kani_concrete_playback_chunks_5652318165848096091() {
+fn kani_concrete_playback_chunks_14158247330815965450() {
     let concrete_vals: Vec<Vec<u8>> = vec![
-        // 18358622627406282746ul
-        vec![250, 255, 255, 239, 2, 238, 198, 254],
-        // 18358622627406282746ul
-        vec![250, 255, 255, 239, 2, 238, 198, 254],
-        // 18358622627406282746ul
-        vec![250, 255, 255, 239, 2, 238, 198, 254],
-        // 64ul
-        vec![64, 0, 0, 0, 0, 0, 0, 0],
-        // 4345955771201093632ul
-        vec![0, 0, 0, 128, 191, 239, 79, 60],
+        // 2ul
+        vec![2, 0, 0, 0, 0, 0, 0, 0],
+        // 2ul
+        vec![2, 0, 0, 0, 0, 0, 0, 0],
+        // 3ul
+        vec![3, 0, 0, 0, 0, 0, 0, 0],
+        // 2ul
+        vec![2, 0, 0, 0, 0, 0, 0, 0],
+        // 16ul
+        vec![16, 0, 0, 0, 0, 0, 0, 0],
+        // 3ul
+        vec![3, 0, 0, 0, 0, 0, 0, 0],
+        // 2ul
+        vec![2, 0, 0, 0, 0, 0, 0, 0],
+        // 2ul
+        vec![2, 0, 0, 0, 0, 0, 0, 0],
+        // 130ul
+        vec![130, 0, 0, 0, 0, 0, 0, 0],
     ];
     kani::concrete_playback_run(concrete_vals, crate::c10::q::usize_::chunks);
 }
